@@ -1,4 +1,4 @@
-"""S3 substrate: real Association objects and real provider threads, connected by socket.socketpair()
+"""S3 substrate: real Association objects and real provider threads, connected by a TCP connection on loopback
 (no listener, no ports) with a tee recording the bytes in both directions; and real loopback TCP on
 port 0 for the listening entity."""
 import socket
@@ -97,10 +97,24 @@ def frames(stream):
     return out
 
 
+def tcp_pair():
+    """two connected TCP sockets on loopback (not socket.socketpair(): that gives AF_UNIX sockets, on which TCP-level
+    socket options a library may legitimately set - TCP_NODELAY, keep-alive - fail)"""
+    lst = socket.socket()
+    try:
+        lst.bind(('127.0.0.1', 0))
+        lst.listen(1)
+        a = socket.create_connection(lst.getsockname())
+        b, _ = lst.accept()
+    finally:
+        lst.close()
+    return a, b
+
+
 def run_pair(server, client, body, server_hook=None, timeout=20):
     """one association over a socket pair; `body(assoc)` runs inside `with client.request_association(..)`.
     Returns dict with the outcome on both sides and the wire traffic."""
-    a, b = socket.socketpair()
+    a, b = tcp_pair()
     tee = Tee(a)
     res = {'server_exc': None, 'client_exc': None, 'out': None}
 
